@@ -4669,4 +4669,188 @@ theorem NC.init (cfg : Cfg) (t0 : Nat) (tasks : List Nat) (timers : List TimerCf
     simp only [kindOK, initSt, List.length_map]
     exact List.mem_range.mp hj
 
+/-! ## Part 9: the wake time is the requested one; an expired wait is handed back -/
+
+/-- the absolute wake time (and whether descriptors are involved) that yielding `y` at time `now` asks for -/
+def reqWake (now : Nat) : Y → Option (Nat × Bool)
+  | .num (n + 1) => some (now + (n + 1), false)
+  | .sleep (some d) => some (now + d, false)
+  | .sleepAbs w => some (w, false)
+  | .select r w x to => to.map (fun d => (now + d, (HubEntry.mk 0 r w x none).hasFds))
+  | .recv _ to => to.map (fun d => (now + d, true))
+  | .send _ _ to _ => to.map (fun d => (now + d, true))
+  | _ => none
+
+theorem wkL_get {l : List Task} {t : Nat} {k : Task} (h : l[t]? = some k) : wkL l t = k.wake := by simp [wkL, h]
+
+theorem hasFds_tid (a b : Nat) (r w x : List Nat) (p q : Option Nat) :
+    (HubEntry.mk a r w x p).hasFds = (HubEntry.mk b r w x q).hasFds := rfl
+
+/-- **wake_is_requested, scheduler stage**: interpreting the yielded value `y` of task `t` (whose old wake time has been consumed)
+    notes exactly the wake time `y` asks for -/
+theorem doYield_wake {s : St} {t : Nat} {tk : Task} (ht : s.tasks[t]? = some tk) (hw : tk.wake = none) (y : Y) :
+    wkL (doYield s t y).tasks t = reqWake s.now y := by
+  have hlt : t < s.tasks.length := (List.getElem?_eq_some_iff.mp ht).1
+  cases y with
+  | num n => cases n with
+    | zero => simp [doYield, reqWake, wkL_get ht, hw]
+    | succ n => simp [doYield, reqWake, registerSelect, wkL, List.getElem?_modify, ht, HubEntry.hasFds]
+  | block => simp [doYield, reqWake, wkL_get ht, hw]
+  | sleep d => cases d with
+    | none => simp [doYield, reqWake, wkL_get ht, hw]
+    | some d =>
+      simp only [doYield, reqWake]
+      split
+      · unfold fastSchedule; split <;> simp [wkL, List.getElem?_modify, ht]
+      · simp [registerSelect, wkL, List.getElem?_modify, ht, HubEntry.hasFds]
+  | sleepAbs w =>
+    simp only [doYield, reqWake]
+    split
+    · unfold fastSchedule; split <;> simp [wkL, List.getElem?_modify, ht]
+    · simp [registerSelect, wkL, List.getElem?_modify, ht, HubEntry.hasFds]
+  | select r w x to =>
+    cases to <;> simp [doYield, reqWake, registerSelect, wkL, List.getElem?_modify, ht]
+    rfl
+  | recv fd to => cases to <;> simp [doYield, reqWake, registerSelect, wkL, List.getElem?_modify, ht, HubEntry.hasFds]
+  | send fd len to bs => cases to <;> simp [doYield, reqWake, registerSelect, wkL, List.getElem?_modify, ht, HubEntry.hasFds]
+  | exit => simp [doYield, reqWake, wkL_get ht, hw]
+  | raise n => simp [doYield, reqWake, wkL_get ht, hw]
+  | again k c =>
+    simp only [doYield, reqWake]
+    unfold fastSchedule
+    split <;> simp [wkL, List.getElem?_append_left hlt, ht, hw]
+  | cancel j => simp [doYield, reqWake, cancelTimer, wkL_get ht, hw]
+
+/-- **wake_is_requested, generator stage** (top-level task): after the resume that yields `y`, the task's wake field is what `y`
+    asks for at the current time -/
+theorem resumeGen_wake (cfg : Cfg) (s : St) (t : Nat) (tk : Task) (k : Nat) (prog : List Y) (y : Y) (r : Recv) (raw : Val)
+    (htk : s.tasks[t]? = some tk) (hkind : tk.kind = .top k) (hprog : cfg.progs[k]? = some prog)
+    (hy : genStep s.timers.length prog tk.pc r = .yield y) :
+    wkL (resumeGen cfg s t tk r raw).tasks t = reqWake s.now y := by
+  obtain ⟨kind, pc, rv, re, rf, st, wake, prio⟩ := tk
+  simp only at hkind hy
+  subst hkind
+  simp only [resumeGen, hprog, setTask_timers, hy, topOut]
+  have ht' : ({ setTask s t (fun k => { k with pc := k.pc + 1, wake := none }) with
+      trace := s.trace ++ [.step t pc s.now r raw wake] } : St).tasks[t]? =
+      some { kind := .top k, pc := pc + 1, rv := rv, re := re, rf := rf, st := st, wake := none, prio := prio } := by
+    simp [List.getElem?_modify, htk]
+  exact doYield_wake ht' rfl y
+
+/-- the wake field of a task changes only in a cycle that runs that task: a cycle leaves everybody else's alone … -/
+theorem cycle_wake_other (cfg : Cfg) (s : St) (hrun : s.running = none) (u : Nat) (hu : u ∉ s.ready)
+    (hl : u < s.tasks.length) : wkL (cycle cfg s).tasks u = wkL s.tasks u := by
+  have key : ((cycle cfg s).tasks.map ctl2)[u]? = (s.tasks.map ctl2)[u]? := by
+    cases hlot : lottery s.tasks s.draws s.ready with
+    | none => simp [cycle, cyclePop, hrun, hlot, cycleExec]
+    | some res =>
+      obtain ⟨t, rest, ds'⟩ := res
+      rw [cycle_pop cfg s t rest ds' hrun hlot]
+      have hne : u ≠ t := by
+        rintro rfl
+        exact hu ((lottery_perm _ _ _ hlot).mem_iff.mp List.mem_cons_self)
+      exact (CycFr.cycleExec cfg (popped s t rest ds') t rfl).ctl u hne hl
+  simp only [List.getElem?_map] at key
+  simp only [wkL]
+  cases h1 : (cycle cfg s).tasks[u]? <;> cases h2 : s.tasks[u]? <;> simp [h1, h2, ctl2] at key ⊢
+  exact key.2.2.2.1
+
+/-- … and the select hub never touches it -/
+theorem idle_wake (cfg : Cfg) (s : St) (u : Nat) : wkL (idleStep cfg s).tasks u = wkL s.tasks u := by
+  have hf := (HubFr.idleStep cfg s).tasks
+  have := congrArg (fun m => m[u]?) hf
+  simp only [List.getElem?_map] at this
+  simp only [wkL]
+  cases h1 : (idleStep cfg s).tasks[u]? <;> cases h2 : s.tasks[u]? <;> simp [h1, h2, eraseRv] at this ⊢
+  exact this.2.2.2.2.2.1
+
+
+/-! ### no lost wake-up for an expired wait (one step) -/
+
+theorem hubDelReturn_ready_mono (s : St) (t : Nat) (v : Val) : ∀ u ∈ s.ready, u ∈ (hubDelReturn s t v).ready := by
+  intro u hu
+  unfold hubDelReturn hubReturn fastSchedule
+  split
+  · split
+    · exact hu
+    · simp only [setTask_ready, Bool.false_eq_true, if_false]; exact List.mem_append_left _ hu
+  · exact hu
+
+theorem hubDelReturn_ready_self {s : St} {t : Nat} (v : Val) (hm : t ∈ hubTids s) (hnr : t ∉ s.ready) :
+    t ∈ (hubDelReturn s t v).ready := by
+  unfold hubDelReturn hubReturn fastSchedule
+  rw [if_pos hm, if_neg (by simpa using hnr)]
+  simp
+
+theorem returnAll_ready_mono : ∀ (rets : Rets) (s : St), ∀ u ∈ s.ready, u ∈ (returnAll s rets).ready
+  | [], _, _, hu => hu
+  | (t, (a, b, c)) :: r, s, u, hu => by
+    simp only [returnAll]
+    split
+    · exact hubDelReturn_ready_mono _ _ _ u hu
+    · exact returnAll_ready_mono r _ u (hubDelReturn_ready_mono _ _ _ u hu)
+
+theorem drain_ready : ∀ (l : List HubEntry) (s : St), (drain s l).ready = s.ready
+  | [], _ => rfl
+  | e :: r, s => by
+    simp only [drain]
+    split
+    · rfl
+    · exact drain_ready r _
+
+theorem hubFinish_ready_mono (sc : Scan) (r : SelRes) (s : St) : ∀ u ∈ s.ready, u ∈ (hubFinish sc r s).ready := by
+  intro u hu
+  unfold hubFinish
+  split
+  · split
+    · exact hubDelReturn_ready_mono _ _ _ u hu
+    · exact hu
+  · have hp : (hubPong r s).ready = s.ready := by
+      unfold hubPong; split
+      · rw [drain_ready]
+      · rfl
+    unfold hubDispatch
+    split
+    · rw [hp]; exact hu
+    · split
+      · rw [hp]; exact hu
+      · split
+        · simp only []; rw [hp]; exact hu
+        · exact returnAll_ready_mono _ _ u (by rw [hp]; exact hu)
+
+theorem returnExpired_ready : ∀ (l : List Nat) {s : St}, Inv s → s.crashed = false → l.Nodup → (∀ t ∈ l, t ∈ hubTids s) →
+    (∀ t ∈ l, t ∈ (returnExpired s l).ready) ∧ (∀ u ∈ s.ready, u ∈ (returnExpired s l).ready)
+  | [], _, _, _, _, _ => ⟨fun _ h => (by cases h), fun _ h => h⟩
+  | t :: r, s, hi, hc, hn, hm => by
+    have hn' := List.nodup_cons.mp hn
+    have htm := hm t List.mem_cons_self
+    have hnr := hi.not_ready_of_hub htm
+    have hc' : (hubDelReturn s t timeoutVal).crashed = false := by rw [hubDelReturn_nc timeoutVal htm hnr]; exact hc
+    have ih := returnExpired_ready r (hi.hubDelReturn t timeoutVal) hc' hn'.2
+      (fun u hu => hubTids_hubDelReturn timeoutVal (hm u (List.mem_cons_of_mem _ hu)) (fun e => hn'.1 (e ▸ hu)))
+    simp only [returnExpired]
+    rw [if_neg (by simp [hc'])]
+    refine ⟨?_, fun u hu => ih.2 u (hubDelReturn_ready_mono _ _ _ u hu)⟩
+    intro u hu
+    rcases List.mem_cons.mp hu with rfl | h
+    · exact ih.2 _ (hubDelReturn_ready_self timeoutVal htm hnr)
+    · exact ih.1 u h
+
+/-- **no lost wake-up (expired wait).**  When the scheduler goes idle, every hub entry whose deadline has passed is handed back:
+    its task is in the ready deque after `idleStep`. -/
+theorem expired_returns (cfg : Cfg) {s : St} (hi : Inv s) (hc : s.crashed = false) (hr : s.ready = [])
+    (e : HubEntry) (he : e ∈ s.hub) (w : Nat) (hw : e.tto = some w) (hle : w ≤ s.now) : e.tid ∈ (idleStep cfg s).ready := by
+  unfold idleStep
+  rw [if_pos hr]
+  obtain ⟨hnd, hmem, _⟩ := hubScan_expired_props hi
+  have hexp : e.tid ∈ (hubScan s).expired := by
+    rw [hubScan_expired]
+    exact List.mem_map.mpr ⟨e, List.mem_filter.mpr ⟨he, by simp [expiredP, hw, hle]⟩, rfl⟩
+  have h1 := (returnExpired_ready (hubScan s).expired hi hc hnd hmem).1 e.tid hexp
+  have hc1 := (returnExpired_nc (hubScan s).expired hi hnd hmem).1
+  unfold hubSelect
+  simp only []
+  rw [if_neg (by rw [hc1, hc]; simp)]
+  exact hubFinish_ready_mono _ _ _ _ h1
+
 end Pox.Recoco
